@@ -95,36 +95,31 @@ theorem orientationIndex_grid (k : Int) {a b c : Pt}
     simp only [hf, FAILURE]
     rfl
 
-/-- the full statement for the orientation index: filter *and* double-double path, whole `2^25` grid -/
-def C07_orientation_full : Prop :=
-  ∀ (k : Int) (a b c : Pt), OnGrid gridBound a → OnGrid gridBound b → OnGrid gridBound c →
-    orientationIndexGrid roundNE k a b c = orient a b c
-
-/-- **dd_exact_grid (PARTIAL, bound 2^24)**: for coordinates of at most `2^24` units every operation of the
-double-double path (`DD::selfAdd`, `DD::selfMultiply` with the Veltkamp split by `2^27 + 1`) is exact, the
-low words vanish and the path returns the exact orientation.  Missing for `C07_orientation_full`: the band
-`(2^24, 2^25]`, where `SPLIT · d` needs one rounding (general Veltkamp lemma); covered by correspondence. -/
-theorem dd_exact_grid_partial (k : Int) {a b c : Pt}
-    (ha : OnGrid (2 ^ 24) a) (hb : OnGrid (2 ^ 24) b) (hc : OnGrid (2 ^ 24) c) :
+/-- **dd_exact_grid**: on the whole `2^25` grid and for every unit `2^k` every operation of the double-double
+path (`DD::selfAdd`, `DD::selfMultiply` with the Veltkamp split by `2^27 + 1`) is exact, the low words vanish
+and the path returns the exact orientation -/
+theorem dd_exact_grid (k : Int) {a b c : Pt}
+    (ha : OnGrid gridBound a) (hb : OnGrid gridBound b) (hc : OnGrid gridBound c) :
     orientationIndexDD roundNE (ofGrid k a.x) (ofGrid k a.y) (ofGrid k b.x) (ofGrid k b.y) (ofGrid k c.x) (ofGrid k c.y)
       = orient a b c :=
-  dd_exact_grid24 k ha hb hc
+  dd_exact_grid25 k ha hb hc
 
-/-- **the modelled `Orientation::index` is exact** (filter + double-double, every unit `2^k`) for
-coordinates of at most `2^24` units -/
-theorem orientationIndex_exact_partial (k : Int) {a b c : Pt}
-    (ha : OnGrid (2 ^ 24) a) (hb : OnGrid (2 ^ 24) b) (hc : OnGrid (2 ^ 24) c) :
+/-- **the modelled `Orientation::index` is exact on the grid**: filter plus double-double fallback, over
+round-to-nearest-even arithmetic, return the sign of the exact determinant for all grid points with
+coordinates of at most `2^25` units and every unit `2^k` -/
+theorem orientationIndex_exact_grid (k : Int) {a b c : Pt}
+    (ha : OnGrid gridBound a) (hb : OnGrid gridBound b) (hc : OnGrid gridBound c) :
     orientationIndexGrid roundNE k a b c = orient a b c := by
-  have up : ∀ p : Pt, OnGrid (2 ^ 24) p → OnGrid gridBound p := by
-    intro p hp
-    have e24 : (2 : Nat) ^ 24 = 16777216 := by decide
-    have e25 : gridBound = 33554432 := by decide
-    unfold OnGrid at hp ⊢
-    rw [e24] at hp; rw [e25]; omega
-  obtain ⟨h1, h2⟩ := orientationIndex_grid k (up a ha) (up b hb) (up c hc)
+  obtain ⟨h1, h2⟩ := orientationIndex_grid k ha hb hc
   by_cases hf : filterGrid roundNE errCoef k a b c = FAILURE
-  · rw [h2 hf]; exact dd_exact_grid24 k ha hb hc
+  · rw [h2 hf]; exact dd_exact_grid25 k ha hb hc
   · exact h1 hf
+
+/-- hence the modelled index is antisymmetric on the grid -/
+theorem orientationIndex_antisym_grid (k : Int) {a b c : Pt}
+    (ha : OnGrid gridBound a) (hb : OnGrid gridBound b) (hc : OnGrid gridBound c) :
+    orientationIndexGrid roundNE k b a c = - orientationIndexGrid roundNE k a b c := by
+  rw [orientationIndex_exact_grid k hb ha hc, orientationIndex_exact_grid k ha hb hc, orient_swap12]
 
 /-- **orientation_antisym** (arbitrary doubles, arbitrary error coefficient): for any rounding function that
 is odd (`rnd (-x) = -(rnd x)`) swapping the first two points negates the filter's answer, and the filter
@@ -307,6 +302,9 @@ example : orient ⟨0, 0⟩ ⟨33554432, 33554431⟩ ⟨33554431, 33554430⟩ = 
 example : filterGrid roundNE errCoef 7 ⟨0, 0⟩ ⟨4, 4⟩ ⟨2, 2⟩ = FAILURE := by decide
 example : orientationIndexGrid roundNE 7 ⟨0, 0⟩ ⟨4, 4⟩ ⟨2, 2⟩ = 0 := by decide +kernel
 example : OnGrid (2 ^ 24) ⟨2 ^ 24, -(2 ^ 24)⟩ := by decide
+-- the extreme span 2^26, where SPLIT·d needs the shifted exponent
+example : filterGrid roundNE errCoef 3 ⟨2 ^ 25, 2 ^ 25⟩ ⟨-(2 ^ 25), -(2 ^ 25)⟩ ⟨0, 0⟩ = FAILURE := by decide
+example : orientationIndexGrid roundNE 3 ⟨2 ^ 25, 2 ^ 25⟩ ⟨-(2 ^ 25), -(2 ^ 25)⟩ ⟨0, 0⟩ = 0 := by decide +kernel
 example : area2 [⟨0, 0⟩, ⟨4, 0⟩, ⟨0, 3⟩, ⟨0, 0⟩] = 12 := by decide
 example : isCCW [⟨0, 0⟩, ⟨4, 0⟩, ⟨0, 3⟩, ⟨0, 0⟩] = true := by decide
 example : isCCW [⟨0, 0⟩, ⟨0, 3⟩, ⟨4, 0⟩, ⟨0, 0⟩] = false := by decide
